@@ -32,7 +32,19 @@ pub fn edwards<C: EdwardsCurve>(name: &str) -> J {
 }
 
 pub fn all() -> Vec<J> {
-    vec![weier::<K256>("secp256k1"), weier::<G1Projective>("bls12_381_g1"), edwards::<JubjubExtended>("jubjub")]
+    let mut v = vec![weier::<K256>("secp256k1"), weier::<G1Projective>("bls12_381_g1"), edwards::<JubjubExtended>("jubjub"),
+        edwards::<midnight_curves::curve25519::Curve25519>("curve25519")];
+    {
+        use midnight_curves::bn256;
+        use group::Curve;
+        let le = |x: &bn256::Fq| num_bigint::BigUint::from_bytes_le(x.to_repr().as_ref());
+        let g = bn256::G1::generator().to_affine();
+        let p = le(&(-bn256::Fq::ONE)) + 1u8;
+        let r = num_bigint::BigUint::from_bytes_le((-bn256::Fr::ONE).to_repr().as_ref()) + 1u8;
+        v.push(json!({"curve":"bn256_g1","form":"weierstrass","p":nat_of_big(&p),"r":nat_of_big(&r),"a":[],"b":[3],
+            "gx":nat_of_big(&le(&g.x)),"gy":nat_of_big(&le(&g.y)),"bits_subgroup":254}));
+    }
+    v
 }
 
 pub fn main(_args: &[String]) -> i32 {
